@@ -991,6 +991,9 @@ func localClosure(p *Prog, roots ...string) []*FuncInfo {
 		work = append(work, r)
 	}
 	var pkg string
+	if len(roots) == 0 {
+		return nil
+	}
 	if fi := p.Funcs[roots[0]]; fi != nil {
 		pkg = fi.Pkg.PkgPath
 	}
